@@ -309,6 +309,9 @@ fn attempts_for(rng: &mut Rng, notes: &[(String, String)], n_attempts: usize) ->
             8 => rng.pick(NEW_SUB).to_string(),
             _ => if rng.chance(1, 2) { format!("{}.md", rng.pick(&notes.iter().map(|n| n.0.clone()).collect::<Vec<_>>())) } else { rng.pick(NEW_SUB).to_string() },
         };
+        // from a note in a sub-directory the name is read from that directory (like the url under
+        // the cursor): one in three is typed relative to the parent (`../new` keeps the note there)
+        let new_name = if doc.contains('/') && rng.chance(1, 3) { format!("../{}", new_name) } else { new_name };
         out.push(json!([doc, idx, new_name]));
     }
     out
